@@ -36,7 +36,7 @@ Definition proj_peel (r : res (plain * option N * N)) : pobs :=
    w_accept is then the accept list of the resolved DID document *)
 Record todid := { td_found : option connrec; td_defaults : list mtp; td_v2msg : bool; td_after : option connrec }.
 
-Record wcase := { w_todid : option todid; w_accept : list mtp; w_default : mtp; w_auth : bool; w_kt : ktype; w_enc : encalg; w_style : kstyle;
+Record wcase := { w_todid : option todid; w_primary : packer; w_accept : list mtp; w_default : mtp; w_auth : bool; w_kt : ktype; w_enc : encalg; w_style : kstyle;
                   w_spar : list N; w_payload : N; w_sender : N; w_rcpts : list N;
                   w_routing : list hop; w_sent : bool;
                   w_levels : list (list (list N * pobs)) }.
@@ -108,23 +108,32 @@ Definition todid_store_ok (c : wcase) : bool :=
    key pair that is not a recipient's against the payload's name and the recipients' CEK seed ([coalition_ok], sound by
    Props.send_ok_b_is_sound), and the whole view — recipients' envelope, every layer, every forward plaintext, written
    as terms — is safe for that coalition ([coalition_safe]; Props.coalition_cannot_derive) *)
-Definition opaque_case (c : wcase) (pf : profile) (ls : list layer) : bool :=
-  let cf := cfg_of pf (eff_auth c) (w_kt c) (w_enc c) (w_style c) in
+Definition opaque_case (c : wcase) (cf : cfg) (pf : profile) (ls : list layer) : bool :=
   coalition_ok FFixed cf pf (w_spar c) (w_sender c) (w_payload c) (w_rcpts c) (w_routing c) rnd0 &&
   match pack cf (w_spar c) (pay_id (w_payload c)) (w_sender c) (w_rcpts c) rnd0 with
   | Ok w0 => coalition_safe cf (w_sender c) (w_payload c) (w_rcpts c) rnd0 w0 ls
   | _ => false
   end.
 
+(* the packer configuration, the profile family and the model's Send for the case: a selected media type the packager
+   has a packer for -> [wrap]; none -> the primary packer of the sender's packager, [wrap_primary] *)
+Definition run_case (c : wcase) : cfg * profile * res (wire * list layer) :=
+  match family (media_type (eff_accept c) (eff_default c)) with
+  | Some pf =>
+      let cf := cfg_of pf (eff_auth c) (w_kt c) (w_enc c) (w_style c) in
+      (cf, pf, wrap FFixed cf pf (w_spar c) (w_payload c) (w_sender c) (w_rcpts c) (w_routing c) rnd0)
+  | None =>
+      (mkcfg (w_primary c) (w_kt c) (w_enc c) (w_style c), primary_profile (w_primary c),
+       wrap_primary FFixed (w_primary c) (w_kt c) (w_enc c) (w_style c) (w_spar c) (w_payload c)
+                    (if eff_auth c then w_sender c else 0) (w_rcpts c) (w_routing c) rnd0)
+  end.
+
 Definition check_wcase (c : wcase) : bool :=
   todid_store_ok c &&
-  match family (media_type (eff_accept c) (eff_default c)) with
-  | None => false
-  | Some pf =>
-  match wrap FFixed (cfg_of pf (eff_auth c) (w_kt c) (w_enc c) (w_style c)) pf (w_spar c) (w_payload c) (w_sender c) (w_rcpts c) (w_routing c) rnd0 with
-  | Ok (outer, ls) => w_sent c && check_levels ls outer (w_levels c) && opaque_case c pf ls
+  let '(cf, pf, r) := run_case c in
+  match r with
+  | Ok (outer, ls) => w_sent c && check_levels ls outer (w_levels c) && opaque_case c cf pf ls
   | _ => negb (w_sent c)
-  end
   end.
 
 (* route histories *)
